@@ -49,7 +49,7 @@ Proof.
   fold (rapply (map (fun xw : Z * Z => (IZR (fst xw) / IZR (2 ^ E), IZR (snd xw) / IZR (2 ^ F))) (combine xs ws)) (fun x0 => x0 ^ j)).
   rewrite IH. rewrite plus_IZR, mult_IZR.
   replace (IZR (x ^ Z.of_nat j)) with (IZR x ^ j) by (rewrite <- pow_IZR; reflexivity).
-  unfold Rdiv. rewrite Rpow_mult_distr, <- Rinv_pow by exact HpE.
+  unfold Rdiv. rewrite Rpow_mult_distr, pow_inv.
   field. split; [apply pow_nonzero|]; assumption.
 Qed.
 
